@@ -6,8 +6,15 @@ Op kinds (one line each; doubles as hex bit patterns):
   iset N n mask_0 … mask_{N-1}        real IndexSet::update / indices / compl_indices vs the model
   fb <E|G> <problem> μ y x_init u     real OCPEvaluator::forward + backward on a polynomial OCP
                                       (E = exact regime: every binary64 operation is exact)
+  fbs <E|G> <problem> μ y x_init K u_1 … u_K L call_1 … call_L
+                                      a SEQUENCE of calls on ONE OCPEvaluator / one qr vector / K storages:
+                                      F i = forward(storage_i), S i = forward_simulate(storage_i),
+                                      B i = backward(storage_i), C i j = storage_j ← storage_i; the model is a
+                                      pure function of the storage handed to each call, so any disagreement
+                                      means the real object depends on its call history
 handled outside the bit-exact stream (extra stage, compared to a tolerance):
   ric chol N nx nu <stages> Q_N q_N   real StatefulLQRFactor::factor_masked + solve_masked
+  rics M N nx nu (chol <stages> Q_N q_N)×M   M cases on ONE StatefulLQRFactor / IndexSet / work vectors
   gn  chol <problem> μ y x_init u q masks   the Gauss-Newton step as panoc-ocp.tpp assembles it
   xstride …                           side observation (detail::assign_extract_x), never fails
 """
@@ -23,7 +30,8 @@ import common as C
 from common import f2h, h2f, vec2p
 
 INF = float('inf')
-STATS = {'fb_exact_regime': 0, 'fb_general': 0, 'layout': 0, 'iset': 0}
+STATS = {'fb_exact_regime': 0, 'fb_general': 0, 'layout': 0, 'iset': 0, 'fbs_sequences': 0, 'fbs_calls': 0,
+         'fbs_backward_on_earlier_forward': 0, 'fbs_backward_on_copy': 0, 'fbs_backward_activity_differs_from_last_forward': 0}
 
 
 # ------------------------------------------------------------------------------ parsing
@@ -352,6 +360,157 @@ def gen_fb(rng, dims=None, exact=None):
     return f'fb {tag} {pline} {vec2p(mu)} {vec2p(y)} {vec2p(xinit)} {vec2p(u)}'
 
 
+def activity(p, mu, y, xinit, u):
+    """which constraint components are violated (ζ outside the box) along the exact trajectory:
+    (tuple per stage …, terminal tuple)."""
+    U = [[Fr(u[t * p.nu + k]) for k in range(p.nu)] for t in range(p.N)]
+    _, _, _, cs = p.cost(xinit, U, mu, y)
+    mu = [Fr(m) for m in mu]
+    yv = [Fr(a) for a in y]
+
+    def act(c, lb, ub, off):
+        out = []
+        for i in range(len(c)):
+            z = c[i] + yv[off + i] / mu[off + i]
+            out.append((math.isfinite(lb[i]) and z < Fr(lb[i])) or (math.isfinite(ub[i]) and z > Fr(ub[i])))
+        return tuple(out)
+    sig = [act(cs[t], p.Dlb, p.Dub, t * p.nc) for t in range(p.N)]
+    sig.append(act(cs[p.N], p.DNlb, p.DNub, p.N * p.nc))
+    return tuple(sig)
+
+
+def zetas(p, mu, y, xinit, u):
+    U = [[Fr(u[t * p.nu + k]) for k in range(p.nu)] for t in range(p.N)]
+    _, _, _, cs = p.cost(xinit, U, mu, y)
+    mu = [Fr(m) for m in mu]
+    yv = [Fr(a) for a in y]
+    st = [[cs[t][i] + yv[t * p.nc + i] / mu[t * p.nc + i] for i in range(p.nc)] for t in range(p.N)]
+    tm = [cs[p.N][i] + yv[p.N * p.nc + i] / mu[p.N * p.nc + i] for i in range(p.ncN)]
+    return st, tm
+
+
+def prob_line(p):
+    vs = [p.A, p.B, p.Cb, p.e, p.Hm, p.HN, p.w, p.g, p.d, p.wN, p.gN, p.Cc, p.cq, p.ce, p.CcN, p.cqN,
+          p.Dlb, p.Dub, p.DNlb, p.DNub]
+    return f'{p.N} {p.nx} {p.nu} {p.nh} {p.nhN} {p.nc} {p.ncN} ' + ' '.join(vec2p(v) for v in vs)
+
+
+FBS_SHAPES = [
+    # (calls over storages 0 = strictly feasible, 1 = violating, 2 = mixed / other); the shapes of
+    # panoc-ocp.tpp: forward of a rejected candidate between forward and backward of the iterate that is
+    # kept (take_safe_step copies the iterate and calls only backward), forward_simulate + backward
+    # (initial_lipschitz_estimate), backward twice, backward after a later forward of another storage.
+    ['F 0', 'F 1', 'B 0'],
+    ['F 1', 'F 0', 'B 1'],
+    ['F 1', 'F 0', 'C 1 2', 'B 2', 'B 0'],
+    ['F 0', 'F 1', 'C 0 2', 'B 2', 'B 1'],
+    ['S 0', 'F 1', 'B 0', 'B 1'],
+    ['S 1', 'S 0', 'B 1', 'B 0'],
+    ['F 0', 'B 0', 'F 1', 'B 1', 'B 0', 'F 2', 'B 1', 'B 2'],
+    ['F 2', 'F 1', 'F 0', 'B 2', 'B 1', 'B 0', 'B 2'],
+]
+
+
+def gen_fbs(rng, dims=None, exact=None, shape=None):
+    """K ≥ 3 input sequences on one problem: storage 0 strictly feasible (the boxes are built around its
+    ζ values), storage 1 violating stage and terminal constraints where they exist, the others with yet
+    other (preferably per-stage mixed) activity patterns; then a seeded call sequence in which `backward`
+    runs on storages filled by an EARLIER forward and on COPIES."""
+    exact = (rng.random() < 0.5) if exact is None else exact
+    for _attempt in range(30):
+        if dims is None:
+            N = rng.choice([1, 2, 2, 3]); nx = rng.choice([1, 2, 2, 3]); nu = rng.choice([1, 2])
+            nh = rng.choice([0, 0, 1, nx + nu]); nhN = rng.choice([0, 0, 1, nx])
+            nc, ncN = rng.choice([(1, 1), (2, 1), (1, 0), (0, 1), (2, 2), (0, 2), (3, 0), (1, 2), (0, 0)])
+            dm = (N, nx, nu, nh, nhN, nc, ncN)
+        else:
+            dm = dims
+        pline, (mu, y, xinit, u0), _ = gen_problem(rng, exact, dm)
+        p = Prob(T(pline))
+        N, nu, nc, ncN = p.N, p.nu, p.nc, p.ncN
+        # boxes around the ζ values of storage 0: strictly feasible there (some sides infinite)
+        st, tm = zetas(p, mu, y, xinit, u0)
+        half = Fr(1, 2)
+
+        def around(vals):
+            lo = math.floor(min(vals) * 2) * half - half
+            hi = math.ceil(max(vals) * 2) * half + half
+            k = rng.random()
+            return (-INF if k < 0.15 else float(lo)), (INF if 0.15 <= k < 0.3 else float(hi))
+        if nc:
+            bx = [around([st[t][i] for t in range(N)]) for i in range(nc)]
+            p.Dlb, p.Dub = [b[0] for b in bx], [b[1] for b in bx]
+        if ncN:
+            bx = [around([tm[i]]) for i in range(ncN)]
+            p.DNlb, p.DNub = [b[0] for b in bx], [b[1] for b in bx]
+        pline = prob_line(p)
+        sig0 = activity(p, mu, y, xinit, u0)
+        if any(any(s) for s in sig0):
+            continue
+        # candidates with growing magnitude; keep those with new activity signatures
+        us, sigs = [u0], [sig0]
+        cands = []
+        for k in range(24):
+            sc = rng.choice([1, 2, 2, 4, 4, 8])
+            if exact:
+                cand = [small(rng, 0.15) * sc for _ in range(N * nu)]
+            else:
+                cand = [rng.gauss(0, 1) * sc for _ in range(N * nu)]
+            cands.append((cand, activity(p, mu, y, xinit, cand)))
+        want_stage = nc > 0
+        want_term = ncN > 0
+        # storage 1: violates a stage constraint and the terminal constraint (where they exist)
+        best = None
+        for cand, sg in cands:
+            ok_s = (not want_stage) or any(any(s) for s in sg[:-1])
+            ok_t = (not want_term) or any(sg[-1])
+            score = (ok_s and ok_t, ok_s + ok_t, sum(sum(s) for s in sg))
+            if best is None or score > best[0]:
+                best = (score, cand, sg)
+        if (want_stage or want_term) and not best[0][1]:
+            continue
+        us.append(best[1]); sigs.append(best[2])
+        # further storages: new signatures, preferring mixed activity across stages
+        rest = sorted((c for c in cands if c[1] not in sigs),
+                      key=lambda c: -len({tuple(s) for s in c[1][:-1]}))
+        for cand, sg in rest:
+            if sg not in sigs:
+                us.append(cand); sigs.append(sg)
+            if len(us) >= rng.choice([3, 3, 4, 5]):
+                break
+        while len(us) < 3:
+            cand = [small(rng, 0.2) if exact else rng.gauss(0, 1) for _ in range(N * nu)]
+            us.append(cand); sigs.append(activity(p, mu, y, xinit, cand))
+        K = len(us)
+        if shape is not None:
+            calls = list(shape)
+        else:
+            calls = []
+            filled = [False] * K
+            L = rng.randint(4, 12)
+            while len(calls) < L:
+                k = rng.random()
+                i = rng.randrange(K)
+                if k < 0.35:
+                    calls.append(f'F {i}'); filled[i] = True
+                elif k < 0.45:
+                    calls.append(f'S {i}'); filled[i] = True
+                elif k < 0.55 and filled[i]:
+                    j = rng.choice([a for a in range(K) if a != i])
+                    calls.append(f'C {i} {j}'); filled[j] = True
+                elif any(filled):
+                    # backward on a filled storage, preferably not the one touched last
+                    cand_i = [a for a in range(K) if filled[a]]
+                    last = int(calls[-1].split()[-1]) if calls else -1
+                    pref = [a for a in cand_i if a != last] or cand_i
+                    calls.append(f'B {rng.choice(pref)}')
+        tag = 'E' if exact and all(is_exact_regime(pline, mu, y, xinit, u) for u in us) else 'G'
+        return (f'fbs {tag} {pline} {vec2p(mu)} {vec2p(y)} {vec2p(xinit)} {K} ' + ' '.join(vec2p(u) for u in us)
+                + f' {len(calls)} ' + ' '.join(calls))
+    # fall-back (no constraints could be arranged): an unconstrained sequence
+    return gen_fbs(rng, (2, 2, 1, 0, 0, 0, 0), exact, shape)
+
+
 def gen_layout(rng):
     N = rng.choice([0, 1, 1, 2, 3, 5, 8, 13])
     dims = [rng.choice([0, 0, 1, 2, 3, 5, 7]) for _ in range(6)]
@@ -389,6 +548,20 @@ def gen_ops(rng, n):
         ops.append(gen_fb(rng, dms, exact=False))
     for _ in range(n):
         ops.append(gen_fb(rng))
+    # call sequences on one evaluator object (history independence)
+    for _ in range(max(60, min(n // 3, 1200))):
+        ops.append(gen_fbs(rng))
+    return ops
+
+
+def fbs_corpus():
+    """fixed sequences of the shapes PANOC-OCP produces, on fixed problems (own seed)."""
+    rng = random.Random(20260930)
+    ops = []
+    for dims in ((2, 2, 1, 0, 0, 1, 1), (3, 2, 2, 3, 2, 2, 1), (2, 1, 1, 0, 0, 0, 2), (2, 2, 1, 0, 1, 2, 0)):
+        for sh in FBS_SHAPES:
+            ops.append(gen_fbs(rng, dims, exact=True, shape=sh))
+        ops.append(gen_fbs(rng, dims, exact=False, shape=FBS_SHAPES[2]))
     return ops
 
 
@@ -463,15 +636,11 @@ def mon_iset(t, out):
     return None
 
 
-def mon_fb(t, out, st):
-    tag = t.tok()
-    p = Prob(t)
-    mu, y, xinit, u = t.vec(), t.vec(), t.vec(), t.vec()
-    o = T(out)
-    V = o.flt(); o.expect('s'); sto = o.vec(); o.expect('g'); grad = o.vec()
-    N, nx, nu, nh, nhN, nc, ncN = p.N, p.nx, p.nu, p.nh, p.nhN, p.nc, p.ncN
+def fb_reference(p, mu, y, xinit, u, exact):
+    """exact cost, exact gradient (forward-mode differentiation of the cost polynomial), exact
+    trajectory / outputs / constraint values, and the comparison tolerances of the regime."""
+    N, nu = p.N, p.nu
     Vd, xs, hs, cs = p.cost(xinit, dual_inputs(u, N, nu), mu, y)
-    exact = tag == 'E'
     if exact:
         tolV = Fr(0)
         tolg = [Fr(0)] * (N * nu)
@@ -482,14 +651,23 @@ def mon_fb(t, out, st):
         tolV = eps * (Vm.v + 1)
         tolg = [eps * (a + 1) for a in Vm.g]
         tols = eps * (max([val(a) for row in xm + hm + cm for a in row] + [Fr(1)]) + 1)
-    STATS['fb_exact_regime' if exact else 'fb_general'] += 1
+    return dict(Vd=Vd, xs=xs, hs=hs, cs=cs, tolV=tolV, tolg=tolg, tols=tols, exact=exact)
+
+
+def cmp_cost(ref, V, tag):
+    Vd = ref['Vd']
     if not math.isfinite(V):
         return f'forward returned {V!r}'
-    if abs(Fr(V) - Vd.v) > tolV:
+    if abs(Fr(V) - Vd.v) > ref['tolV']:
         return (f'forward = {V!r} but Σ stage costs + terminal cost + ½ Σ μ-weighted squared box distance '
                 f'along the exactly simulated trajectory = {float(Vd.v)!r}' +
-                (f' (exact {Vd.v})' if exact else '') + f'; regime {tag}')
-    # the trajectory, outputs and constraint values stored by forward
+                (f' (exact {Vd.v})' if ref['exact'] else '') + f'; regime {tag}')
+    return None
+
+
+def cmp_storage(p, ref, sto, tag, who='forward'):
+    N, nx, nu, nh, nhN, nc, ncN = p.N, p.nx, p.nu, p.nh, p.nhN, p.nc, p.ncN
+    xs, hs, cs = ref['xs'], ref['hs'], ref['cs']
     stride = nx + nu + nh + nc
     if len(sto) != N * stride + nx + nhN + ncN:
         return f'storage has {len(sto)} entries'
@@ -502,16 +680,114 @@ def mon_fb(t, out, st):
             blocks += [('h', base + nx, hs[k]), ('c', base + nx + nhN, cs[k])]
         for name, off, vals in blocks:
             for i, a in enumerate(vals):
-                if abs(Fr(sto[off + i]) - val(a)) > tols:
-                    return (f'storage after forward: {name}_{k}[{i}] = {sto[off + i]!r}, exact roll-out '
+                if abs(Fr(sto[off + i]) - val(a)) > ref['tols']:
+                    return (f'storage after {who}: {name}_{k}[{i}] = {sto[off + i]!r}, exact roll-out '
                             f'gives {float(val(a))!r}; regime {tag}')
+    return None
+
+
+def cmp_grad(p, ref, grad, tag):
+    N, nu = p.N, p.nu
+    Vd = ref['Vd']
     if len(grad) != N * nu:
         return f'gradient has {len(grad)} entries'
     for i in range(N * nu):
-        if not math.isfinite(grad[i]) or abs(Fr(grad[i]) - Vd.g[i]) > tolg[i]:
+        if not math.isfinite(grad[i]) or abs(Fr(grad[i]) - Vd.g[i]) > ref['tolg'][i]:
             return (f'backward: ∂V/∂u[{i // nu}][{i % nu}] = {grad[i]!r}, exact derivative of the cost '
-                    f'polynomial = {float(Vd.g[i])!r}' + (f' (exact {Vd.g[i]})' if exact else '') +
+                    f'polynomial = {float(Vd.g[i])!r}' + (f' (exact {Vd.g[i]})' if ref['exact'] else '') +
                     f'; regime {tag}')
+    return None
+
+
+def mon_fb(t, out, st):
+    tag = t.tok()
+    p = Prob(t)
+    mu, y, xinit, u = t.vec(), t.vec(), t.vec(), t.vec()
+    o = T(out)
+    V = o.flt(); o.expect('s'); sto = o.vec(); o.expect('g'); grad = o.vec()
+    exact = tag == 'E'
+    ref = fb_reference(p, mu, y, xinit, u, exact)
+    STATS['fb_exact_regime' if exact else 'fb_general'] += 1
+    return cmp_cost(ref, V, tag) or cmp_storage(p, ref, sto, tag) or cmp_grad(p, ref, grad, tag)
+
+
+def parse_fbs(t):
+    tag = t.tok()
+    p = Prob(t)
+    mu, y, xinit = t.vec(), t.vec(), t.vec()
+    K = t.nat()
+    us = [t.vec() for _ in range(K)]
+    L = t.nat()
+    calls = []
+    for _ in range(L):
+        kind = t.tok()
+        if kind == 'C':
+            calls.append((kind, t.nat(), t.nat()))
+        else:
+            calls.append((kind, t.nat(), None))
+    return tag, p, mu, y, xinit, us, calls
+
+
+def mon_fbs(t, out, st):
+    """The property on every call of the sequence: the value `forward` returns is the cost at the inputs
+    held by the storage it was handed, and the vector `backward` writes is the exact gradient of the cost
+    at the inputs held by the storage IT was handed — whatever was evaluated in between."""
+    tag, p, mu, y, xinit, us, calls = parse_fbs(t)
+    segs = out.split(' | ')
+    if len(segs) != len(calls):
+        return f'sequence of {len(calls)} calls answered with {len(segs)} segments'
+    exact = tag == 'E'
+    K = len(us)
+    holds = list(range(K))          # which input sequence storage i holds
+    filled = [False] * K
+    copied = [False] * K
+    refs, sigs = {}, {}
+
+    def R(k):
+        if k not in refs:
+            refs[k] = fb_reference(p, mu, y, xinit, us[k], exact)
+        return refs[k]
+
+    def S(k):
+        if k not in sigs:
+            sigs[k] = activity(p, mu, y, xinit, us[k])
+        return sigs[k]
+    last_fw = None                  # (storage index, input index) of the latest forward / forward_simulate
+    STATS['fbs_sequences'] += 1
+    for n, ((kind, i, j), seg) in enumerate(zip(calls, segs)):
+        o = T(seg)
+        if o.tok() != kind:
+            return f'call #{n} {kind} {i}: unexpected answer {seg[:40]!r}'
+        STATS['fbs_calls'] += 1
+        where = f'call #{n} `{kind} {i}' + (f' {j}`' if j is not None else '`') + f' of {[" ".join(str(a) for a in c if a is not None) for c in calls]}: '
+        m = None
+        if kind == 'F':
+            V = o.flt(); o.expect('s'); sto = o.vec()
+            ref = R(holds[i])
+            m = cmp_cost(ref, V, tag) or cmp_storage(p, ref, sto, tag)
+            filled[i] = True; copied[i] = False; last_fw = (i, holds[i])
+        elif kind == 'S':
+            o.expect('s'); sto = o.vec()
+            m = cmp_storage(p, R(holds[i]), sto, tag, who='forward_simulate')
+            filled[i] = True; copied[i] = False; last_fw = (i, holds[i])
+        elif kind == 'C':
+            o.expect('s'); sto = o.vec()
+            holds[j] = holds[i]; filled[j] = filled[i]; copied[j] = True
+            if filled[j]:
+                m = cmp_storage(p, R(holds[j]), sto, tag, who='copy')
+        elif kind == 'B':
+            if not filled[i]:
+                continue            # precondition of backward not met (never generated)
+            o.expect('g'); grad = o.vec()
+            m = cmp_grad(p, R(holds[i]), grad, tag)
+            if last_fw is not None and last_fw[0] != i:
+                STATS['fbs_backward_on_earlier_forward'] += 1
+            if copied[i]:
+                STATS['fbs_backward_on_copy'] += 1
+            if last_fw is not None and S(last_fw[1]) != S(holds[i]):
+                STATS['fbs_backward_activity_differs_from_last_forward'] += 1
+        if m:
+            return where + m
     return None
 
 
@@ -528,6 +804,8 @@ def monitor(op, out, st):
         return mon_iset(t, out)
     if kind == 'fb':
         return mon_fb(t, out, st)
+    if kind == 'fbs':
+        return mon_fbs(t, out, st)
     return None
 
 
@@ -779,12 +1057,97 @@ def riccati_stage(rep, broken, exe, tier):
             model_checked += 1
     if not dout:
         broken.append('driver executable missing (riccati correspondence)')
+    if nbad == 0:
+        riccati_sequences(rep, broken, exe, tier, rng, cases, hout, dout)
     rep.cov['riccati'] = {'cases': len(cases), 'model_vs_impl': model_checked,
                           'distinct_(nu,mask)': len(masks_seen),
                           'worst_error_over_cond_scale': worst}
     rep.cov['traces_validated_against_impl'] += model_checked
     rep.note(f'riccati: {len(cases)} masked QPs vs exact dense KKT, worst error/(cond·scale) = {worst:.3g}; '
              f'model vs real on {model_checked}')
+
+
+def riccati_sequences(rep, broken, exe, tier, rng, cases, hout, dout):
+    """ONE StatefulLQRFactor / IndexSet / work_2x / q vector across M cases of equal dimensions (as
+    panoc-ocp.tpp keeps them across Gauss-Newton steps).  Every case of a sequence must give (a) the
+    bits the same case gives on a fresh object — the pure model's semantics — and (b) the exact
+    minimiser of its masked QP."""
+    groups = {}
+    for i, (op, meta) in enumerate(cases):
+        groups.setdefault(meta[:3], []).append(i)
+    nseq = 80 if tier == 'quick' else 600
+    keys = sorted(k for k, v in groups.items() if len(v) >= 3)
+    seqs = []
+    for _ in range(nseq):
+        k = rng.choice(keys)
+        idx = groups[k]
+        M = rng.randint(3, 6)
+        pick = [rng.choice(idx) for _ in range(M)]
+        if rng.random() < 0.3:
+            pick[rng.randrange(1, M)] = pick[0]          # the same case again later in the sequence
+        seqs.append((k, pick))
+    ops = []
+    for (N, nx, nu), pick in seqs:
+        toks = [f'rics {len(pick)} {N} {nx} {nu}']
+        for i in pick:
+            t = cases[i][0].split(' ', 5)                 # ric chol N nx nu <rest>
+            toks.append(t[1] + ' ' + t[5])
+        ops.append(' '.join(toks))
+    out, rc, err = C.run_lines(exe, ops)
+    if rc != 0 or len(out) != len(ops):
+        rep.violation(f'real StatefulLQRFactor crashed on rics op #{len(out)} (rc={rc}): {err[-300:]}',
+                      {'op': ops[len(out)] if len(out) < len(ops) else None}, True)
+        return
+    rep.cov['evaluations'] += sum(len(pk) for _, pk in seqs)
+    ncases = 0
+    for op, line, ((N, nx, nu), pick) in zip(ops, out, seqs):
+        if line.startswith('exception'):
+            rep.violation(f'riccati sequence: real code threw: {line}', {'op': op}, True)
+            return
+        segs = line.split(' | ')
+        if len(segs) != len(pick):
+            rep.violation(f'riccati sequence of {len(pick)} cases answered with {len(segs)} segments',
+                          {'op': op}, True)
+            return
+        for pos, (seg, i) in enumerate(zip(segs, pick)):
+            ncases += 1
+            if seg.strip() != hout[i].strip():
+                du, dxN, rcond = parse_ric_out(seg)
+                fdu, fdx, _ = parse_ric_out(hout[i])
+                _, (_, _, _, stages, QN, qN) = cases[i]
+                ref = kkt_step(N, nx, nu, stages, QN, qN)
+                exact_du = [float(a) for a in ref[0]] if ref else None
+                rep.violation(
+                    f'riccati: StatefulLQRFactor depends on its call history: case #{pos} of a sequence of '
+                    f'{len(pick)} on ONE factor object (masks {[s["mask"] for s in stages]}, after cases with masks '
+                    f'{[[s["mask"] for s in cases[k][1][3]] for k in pick[:pos]]}) returned Δu = {du}, the same '
+                    f'case on a fresh object returns {fdu}; dense KKT solve of the masked QP: {exact_du}',
+                    {'op': op, 'impl_out': line, 'fresh_object_out': hout[i]}, True)
+                return
+            if i < len(dout) and not dout[i].startswith(('parse-error', 'bad-op')):
+                du, dxN, rcond = parse_ric_out(seg)
+                mdu, mdx, _ = parse_ric_out(dout[i])
+                _, (_, _, _, stages, QN, qN) = cases[i]
+                ref = kkt_step(N, nx, nu, stages, QN, qN)
+                if ref is None:
+                    continue
+                scale = max([1.0] + [abs(float(a)) for a in ref[0] + ref[1]])
+                tol = 2.0 ** -30 / max(rcond, 1e-12) * scale * (N + 1)
+                e = max([abs(a - float(b)) for a, b in zip(du, ref[0])] + [0.0])
+                me = max([abs(a - b) for a, b in zip(du, mdu)] + [0.0])
+                if not e <= tol:
+                    rep.violation(f'riccati sequence, case #{pos}: Δu = {du}, dense KKT solve gives '
+                                  f'{[float(a) for a in ref[0]]} (deviation {e:.3g}, tolerance {tol:.3g})',
+                                  {'op': op, 'impl_out': line}, True)
+                    return
+                if not me <= tol:
+                    broken.append(f'correspondence (riccati sequence): model (pure, answered from the case alone) '
+                                  f'and the reused factor object differ on case #{pos} of {op[:120]}')
+                    return
+    rep.cov['riccati_sequences'] = {'sequences': len(seqs), 'cases': ncases,
+                                    'one_object_equals_fresh_object_bitwise': True}
+    rep.note(f'riccati: {len(seqs)} sequences ({ncases} cases) on ONE StatefulLQRFactor: each case bit-identical '
+             f'to the same case on a fresh object, and within tolerance of the exact KKT step and the model')
 
 
 # ------------------------------------------------------------------------------ Gauss-Newton step (extra stage)
@@ -926,6 +1289,11 @@ def gn_stage(rep, broken, exe, tier):
 
 def extra_stage(rep, broken, exe, tier):
     rep.cov['op_kinds_monitored'] = dict(STATS)
+    # the call-sequence ops must really contain what they are there for
+    for k in ('fbs_sequences', 'fbs_backward_on_earlier_forward', 'fbs_backward_on_copy',
+              'fbs_backward_activity_differs_from_last_forward'):
+        if exe and not STATS[k]:
+            rep.violation(f'call-sequence coverage: {k} = 0 (generator / corpus of checks/c12.py)', {'stat': k}, False)
     if not exe:
         return
     riccati_stage(rep, broken, exe, tier)
@@ -984,6 +1352,28 @@ def replay(r):
         e = max([abs(a - float(b)) for a, b in zip(du, ref[0])] + [0.0])
         print(f'exact KKT step: {[float(a) for a in ref[0]]}; max deviation {e:.3g}')
         return 1 if e > 2.0 ** -30 / max(rcond, 1e-12) * max([1.0] + [abs(float(a)) for a in ref[0]]) * (N + 1) else 0
+    if kind == 'rics':
+        # every case of the sequence again on a fresh factor object: must give the same bits
+        t = T(op); t.tok()
+        M, N, nx, nu = t.nat(), t.nat(), t.nat(), t.nat()
+        singles = []
+        for _ in range(M):
+            start = t.p
+            t.nat()
+            for _k in range(N):
+                for _v in range(8):
+                    t.vec()
+                t.nat()
+            t.vec(); t.vec()
+            toks = t.t[start:t.p]
+            singles.append(f'ric {toks[0]} {N} {nx} {nu} ' + ' '.join(toks[1:]))
+        fresh, rc2, _ = C.run_lines(exe, singles)
+        segs = out[0].split(' | ')
+        bad = [i for i, (a, b) in enumerate(zip(segs, fresh)) if a.strip() != b.strip()]
+        for i in bad[:3]:
+            print(f'case #{i}: one object: {segs[i][:200]}\n         fresh object: {fresh[i][:200]}')
+        print('history-independent' if not bad else f'{len(bad)} of {M} cases differ from the fresh-object answer')
+        return 1 if bad else 0
     if kind == 'gn':
         t = T(op); t.tok(); t.tok()
         p = Prob(t)
@@ -1008,11 +1398,11 @@ if __name__ == '__main__':
         extra_sources=['Alpaqa/Gen/C12.lean', 'Alpaqa/Model/C12.lean', 'Alpaqa/Proofs/Basic.lean',
                        'Driver/C12.lean'] + ['Alpaqa/Proofs/C12%s.lean' % n for n in (
                            'Layout', 'Seg', 'Compl', 'Vec', 'Forward', 'Penalty', 'Adjoint', 'Lin',
-                           'RicM', 'Riccati', 'Optimal', 'Deriv', 'AffQuad')],
+                           'RicM', 'Riccati', 'Optimal', 'Deriv', 'AffQuad', 'Sim')],
         harness_name='c12',
         harness_sources=[os.path.join(C.VERIF, 'harness', 'c12.cpp')] + C.repo_lib_sources(
             ['problem/ocproblem.cpp']),
-        gen_ops=gen_ops, monitor=monitor, nontrivial=nontrivial,
+        gen_ops=gen_ops, monitor=monitor, nontrivial=nontrivial, corpus=fbs_corpus(),
         n_quick=450, n_thorough=10000, extra_stage=extra_stage,
         trusted_base=[
             'Lean 4.33 kernel + Mathlib (axioms: propext, Classical.choice, Quot.sound)',
@@ -1023,6 +1413,14 @@ if __name__ == '__main__':
             'hand models forward / backward / IndexSet::update / factor_masked / solve_masked tied by '
             'the correspondence run (bit-exact for forward/backward incl. the exact regime; Riccati to '
             '2^-30·cond because Eigen LDLT / PartialPivLU enter as oracles with contract R̄X = B)',
+            'the models of forward / forward_simulate / backward / factor_masked / solve_masked are PURE functions '
+            'of the data they are handed; that the C++ objects (OCPEvaluator with its mutable work vectors, '
+            'StatefulLQRFactor) do not depend on their call history is what the call-SEQUENCE correspondence ties: '
+            '`fbs` ops (one evaluator, one qr vector, K ≥ 3 storages with different constraint activity, seeded '
+            'sequences of forward / forward_simulate / backward / copy incl. backward on a storage filled by an '
+            'earlier forward and on a copy, as take_safe_step and initial_lipschitz_estimate do) compared bit for '
+            'bit with the model and monitored against the exact gradient at the storage handed to backward; '
+            '`rics` sequences on one StatefulLQRFactor compared bit for bit with the same case on a fresh object',
             'user functions of the control problem are oracles (arbitrary functions; Jacobian-transpose '
             'products by their adjointness contract); `backward = derivative of forward` is a theorem for the '
             'class of affine-quadratic problems (backward_is_gradient_affquad / _affine_quadratic: affine '
@@ -1038,6 +1436,10 @@ if __name__ == '__main__':
              'n ≤ 12; fb: 10 structural corner dimension tuples (no outputs / no stage constraints / '
              'terminal-only / all) × {exact, general} + seeded random polynomial OCPs (bilinear dynamics, '
              'quadratic constraints, boxes with infinite and equal sides), half in the exact regime; '
-             'riccati: every mask pattern for nu ≤ 3, N ≤ 3 (quick: all per-stage patterns + sample of the '
+             'fbs: 36 fixed sequences (8 PANOC-OCP call shapes × 4 dimension tuples, exact regime, + 4 general) '
+             'first on every tier, then ≥60 seeded sequences of 4–12 calls on 3–5 storages (storage 0 strictly '
+             'feasible by construction of the boxes, storage 1 violating stage and terminal constraints, others '
+             'with further — per-stage mixed — activity patterns); rics: 80 (quick) / 600 sequences of 3–6 cases '
+             'on one factor object; riccati: every mask pattern for nu ≤ 3, N ≤ 3 (quick: all per-stage patterns + sample of the '
              'joint ones), random N ≤ 8, nx ≤ 4, nu ≤ 5, both factorisations; distinct = distinct op lines',
     ))
